@@ -70,7 +70,8 @@ class RegexGenerator:
             raise ValueError(f"Unknown category {value}")
 
     def _generate_any(self, value: None) -> str:
-        return self._random.random_choice(self._alphabet["letters"])
+        # `.` does not match a newline
+        return self._random.random_choice(self._alphabet["letters"].replace("\n", ""))
 
     def _generate_literal(self, value: int) -> str:
         return chr(value)
